@@ -119,7 +119,11 @@ def judge(run, recs, mode, d, keyfn):
     for tid, clause in res.printed("FAIL"):
         r = recs[tid - 1]
         key, what = keyfn(r, clause)
-        slim = {k: v for k, v in r.items() if k not in ("conv", "std", "let_orig", "eq_orig", "z_orig", "eq_conv", "eq_prim", "let_prim")}
+        if clause.startswith("DRIFT"):
+            # an assumption of the model about its environment (here: spglib's dataset) does not hold: not a verdict on matid
+            run.model_drift("%s (%s)" % (clause, key))
+            continue
+        slim = {k: v for k, v in r.items() if k not in ("conv", "std", "let_orig", "eq_orig", "z_orig", "eq_conv", "eq_prim", "let_prim", "ds")}
         slim["conv_n"] = r["conv"]["n"]
         run.violation(key, what, slim)
     return res
